@@ -306,7 +306,6 @@ Proof.
   exists (nl2 ++ rep (4 * S j) sp), (s1 c). repeat split.
   - now exists j.
   - simpl. unfold nonws. now rewrite Hcw.
-  - now rewrite sapp_assoc.
 Qed.
 
 Lemma m3_run_complete W r : W <> "" -> sall ws W = true -> nohead ws r -> C3 W r -> m3 (W ++ r) <> None.
@@ -362,9 +361,10 @@ Qed.
 Lemma not_shape3_out j : ~ shape3 (nl2 ++ rep (4 * S j) sp).
 Proof.
   intros (c0 & a1 & a2 & j' & E & _).
-  apply (f_equal count_nl) in E. unfold nl2, nl1, s1 in E. cbn [append count_nl] in E.
-  rewrite !count_nl_app in E. cbn [count_nl] in E. rewrite !count_nl_app in E. cbn [count_nl] in E.
-  rewrite !count_nl_rep_sp in E. rewrite Ascii.eqb_refl in E. destruct (Ascii.eqb c0 nl); lia.
+  unfold nl2, nl1, s1 in E. cbn [append] in E. inversion E as [[E0 E1]]. clear E E0.
+  apply (f_equal count_nl) in E1. cbn [count_nl] in E1.
+  rewrite !count_nl_app in E1. cbn [count_nl] in E1. rewrite !count_nl_app in E1. cbn [count_nl] in E1.
+  rewrite !count_nl_rep_sp in E1. rewrite Ascii.eqb_refl in E1. lia.
 Qed.
 
 (* ================================================================ the invariant of the output *)
@@ -384,17 +384,17 @@ Proof.
   { split; [reflexivity|]. split; intros [Hs _].
     - revert Hs. apply not_shape2_short. simpl. lia.
     - revert Hs. apply (not_shape3_endnl ""). }
-  apply (allruns_re_sub m3 shape3 start3 Out3 m3_nows m3_run_sound m3_run_complete start3_word Out3_ws
+  apply (allruns_re_sub m3 shape3 start3 Out3 m3_nows m3_run_sound m3_run_complete shape3_mono Out3_ws
            (fun W r => clean1 W r /\ ~ C2 W r)).
-  - apply (allruns_re_sub m2 shape2 start2 Out2 m2_nows m2_run_sound m2_run_complete start2_word Out2_ws clean1).
+  - apply (allruns_re_sub m2 shape2 start2 Out2 m2_nows m2_run_sound m2_run_complete shape2_mono Out2_ws clean1).
     + apply allruns_sub1.
     + intros W r _ _ _ Hc Hn. split; [exact Hc|].
-      now apply (nomatch_stable m2 shape2 start2 Out2 m2_nows m2_run_sound m2_run_complete start2_word Out2_ws).
+      now apply (nomatch_stable m2 shape2 start2 Out2 m2_nows m2_run_sound m2_run_complete shape2_mono start2_word Out2_ws).
     + intros W r o _ _ ->. split; [reflexivity|]. intros [Hs _]. revert Hs. apply not_shape2_short. simpl. lia.
   - intros W r _ _ _ [Hc H2] H3. split; [exact Hc|]. split.
     + intros [Hs Hst]. apply H2. split; auto. eapply start2_word; [|exact Hst].
-      apply (word_re_sub m3 shape3 start3 Out3 m3_nows m3_run_sound m3_run_complete Out3_ws).
-    + now apply (nomatch_stable m3 shape3 start3 Out3 m3_nows m3_run_sound m3_run_complete start3_word Out3_ws).
+      apply (word_re_sub m3 shape3 start3 Out3 m3_nows m3_run_sound m3_run_complete shape3_mono Out3_ws).
+    + now apply (nomatch_stable m3 shape3 start3 Out3 m3_nows m3_run_sound m3_run_complete shape3_mono start3_word Out3_ws).
   - intros W r o _ _ (j & ->). split; [|split].
     + unfold clean1. unfold nl2, nl1, s1. cbn [append nosnb]. rewrite nosnb_rep_sp. reflexivity.
     + intros [Hs _]. revert Hs. apply not_shape2_spaces.
@@ -408,9 +408,9 @@ Proof.
   assert (E1 : re_sub m1 out = out).
   { apply sub1_fixed_runs. eapply allruns_weaken; [|exact A]. now intros W r (H & _). }
   assert (E2 : re_sub m2 out = out).
-  { apply (re_sub_fixed m2 shape2 start2 Out2 m2_nows m2_run_sound). eapply allruns_weaken; [|exact A]. now intros W r (_ & H & _). }
+  { apply (re_sub_fixed m2 shape2 start2 Out2 m2_nows m2_run_sound shape2_mono). eapply allruns_weaken; [|exact A]. now intros W r (_ & H & _). }
   assert (E3 : re_sub m3 out = out).
-  { apply (re_sub_fixed m3 shape3 start3 Out3 m3_nows m3_run_sound). eapply allruns_weaken; [|exact A]. now intros W r (_ & _ & H). }
+  { apply (re_sub_fixed m3 shape3 start3 Out3 m3_nows m3_run_sound shape3_mono). eapply allruns_weaken; [|exact A]. now intros W r (_ & _ & H). }
   unfold fix_whitespace at 1. rewrite E1, E2, E3.
   unfold out, fix_whitespace. rewrite rstrip_app_ws by reflexivity.
   rewrite (rstrip_of_tidy _ (rstrip_tidy _)). reflexivity.
